@@ -87,8 +87,16 @@ class LexerClass:
         return -1
 
 
+_CALL_EVAL = {"fn": None}
+
+
 def fold_str(node, env: dict):
-    """Constant-fold a string expression built from literals, +, f-strings and known names."""
+    """Constant-fold a string expression built from literals, +, f-strings and known names; calls to
+    module-level helper functions are evaluated by the abstract interpreter when one is installed."""
+    if isinstance(node, ast.Call) and _CALL_EVAL["fn"] is not None:
+        r = _CALL_EVAL["fn"](node, env)
+        if r is not None:
+            return r
     if isinstance(node, ast.Constant) and isinstance(node.value, str):
         return node.value
     if isinstance(node, ast.BinOp) and isinstance(node.op, ast.Add):
@@ -201,8 +209,42 @@ def _always_leaves(body) -> bool:
     return False
 
 
+def _install_call_eval(src: Source, mod: Module):
+    def ev(call: ast.Call, env: dict):
+        from . import absint as A
+        name = dotted(call.func)
+        if name not in mod.functions():
+            # any other constant string expression ("|".join(f(q) for q in QUOTES), re.escape(...)): evaluate it abstractly
+            try:
+                it = A.Interp(src)
+                r = it.eval(call, A.Env(mod, {k: A.Tmpl.lit(v) for k, v in env.items() if isinstance(v, str)}))
+                return r.text() if isinstance(r, A.Tmpl) and r.is_literal() else None
+            except (A.Unsupported, A.RaiseSig, A.NeedChoice, AnalysisError):
+                return None
+        it = A.Interp(src)
+        # arguments: literals / folded strings / keyword literals
+        args, kwargs = [], {}
+        for a in call.args:
+            s_ = fold_str(a, env)
+            if s_ is None:
+                return None
+            args.append(A.Tmpl.lit(s_))
+        for k in call.keywords:
+            s_ = fold_str(k.value, env)
+            if s_ is None or k.arg is None:
+                return None
+            kwargs[k.arg] = A.Tmpl.lit(s_)
+        try:
+            r = it.call(A.FuncVal(mod, mod.functions()[name]), args, kwargs)
+        except (A.Unsupported, A.RaiseSig, A.NeedChoice):
+            return None
+        return r.text() if isinstance(r, A.Tmpl) and r.is_literal() else None
+    _CALL_EVAL["fn"] = ev
+
+
 def extract_lexers(src: Source, rel="language/lexer.py") -> dict[str, LexerClass]:
     mod = src.mod(rel)
+    _install_call_eval(src, mod)
     menv = _module_str_env(mod)
     out: dict[str, LexerClass] = {}
     for c in mod.tree.body:
